@@ -54,8 +54,13 @@ func (r *symReader) Read(p []byte) (int, error) {
 	return n, nil
 }
 
+// kitCfg is the configuration the most recently built cache was given (the harnesses that
+// change settings at run time need it; they do not reach into the cache for it).
+var kitCfg *config.Config
+
 func newCfg(limit int64) *config.Config {
 	cfg := config.NewDefault()
+	kitCfg = cfg
 	cfg.Cache.MaxCacheSize.Stage(bytesizeOf(limit)) // the file value, not a CLI override
 	cfg.Cache.MaxCacheSize.CommitStaged()
 	vDropPending()
